@@ -2,6 +2,7 @@ package chaingen
 
 import (
 	"errors"
+	"time"
 
 	"go.sia.tech/core/consensus"
 	"go.sia.tech/core/types"
@@ -86,6 +87,22 @@ func (c *Chain) BlockWithV2Contracts(specs []V2ContractSpec) (types.Block, conse
 // EmptyBlock builds an empty block on the tip.
 func (c *Chain) EmptyBlock() (types.Block, consensus.V1BlockSupplement, error) {
 	return c.newCtx().finish("schedule")
+}
+
+// EmptyBlockAt builds an empty block on the tip with the given timestamp (the
+// caller keeps it legal: not before the median of the previous timestamps).
+func (c *Chain) EmptyBlockAt(ts time.Time) (types.Block, consensus.V1BlockSupplement, error) {
+	x := c.newCtx()
+	x.forceTS = &ts
+	return x.finish("schedule")
+}
+
+// BlockWithAt is BlockWith with an explicit timestamp.
+func (c *Chain) BlockWithAt(v1 []types.Transaction, v2 []types.V2Transaction, ts time.Time) (types.Block, consensus.V1BlockSupplement, error) {
+	x := c.newCtx()
+	x.v1, x.v2 = v1, v2
+	x.forceTS = &ts
+	return x.finish("schedule")
 }
 
 // BlockWith builds a block on the tip carrying the given, already final
